@@ -18,7 +18,8 @@ import (
 // C06 (H): membership / health histories interleaved with connection arrivals on the real TCP processor.
 //
 // hosts     a, b main; c backup (each a virtual backend recording what it accepts)
-// alphabet  add h | remove h | replace-all {a} / {b,c} | mark h unhealthy | mark h healthy | client connects |
+// alphabet  add h | remove h | replace-all {a} / {b,c} | mark h unhealthy | mark h healthy | a late health result
+//           for the host object a had at the start (stale once a was removed or re-added) | client connects |
 //           oldest client disconnects ; policy round robin | random | least connection (every random outcome)
 //           membership changes use fresh host objects that only carry the address, as the controller does
 // bound     depth (quick 3, thorough 4)
@@ -135,7 +136,10 @@ func c06histBody(depth int) func() {
 		policy := []service.LoadBalancePolicy{service.LoadBalancePolicy_ROUND_ROBIN, service.LoadBalancePolicy_RANDOM, service.LoadBalancePolicy_LEAST_CONNECTION}[sched.Choose(sched.ClsInput, 3, "policy")]
 		w := c06setup(policy, []string{"a", "b", "c"})
 		var hist []string
-		ops := []string{"add a", "add b", "add c", "remove a", "remove b", "remove c", "replace {a}", "replace {b,c}", "remove a,b", "remove b,a", "unhealthy a", "unhealthy b", "unhealthy c", "healthy a", "healthy b", "connect", "disconnect"}
+		ops := []string{"add a", "add b", "add c", "remove a", "remove b", "remove c", "replace {a}", "replace {b,c}", "remove a,b", "remove b,a", "unhealthy a", "unhealthy b", "unhealthy c", "healthy a", "healthy b", "connect", "disconnect", "late-unhealthy a", "late-healthy a"}
+		// the host object a health check started on at the beginning; its late results must not count once the
+		// address was removed or re-added as a fresh object
+		origA := w.stored("a")
 		for step := 0; step < depth; step++ {
 			op := ops[sched.Choose(sched.ClsInput, len(ops), "op")]
 			hist = append(hist, op)
@@ -173,6 +177,16 @@ func c06histBody(depth int) func() {
 						w.p.hostSet.MarkHostHealthy(h)
 					}
 					w.healthy[f[1]] = f[0] == "healthy"
+				}
+			case "late-unhealthy", "late-healthy":
+				cur := w.stored("a")
+				if f[0] == "late-unhealthy" {
+					w.p.hostSet.MarkHostUnhealthy(origA)
+				} else {
+					w.p.hostSet.MarkHostHealthy(origA)
+				}
+				if cur == origA {
+					w.healthy["a"] = f[0] == "late-healthy"
 				}
 			case "connect":
 				us := w.usable()
@@ -236,7 +250,7 @@ func c06raceBody() {
 	vrand.IntRange = 6
 	sched.OnReset(func() { vrand.IntRange = 1 })
 	policy := []service.LoadBalancePolicy{service.LoadBalancePolicy_ROUND_ROBIN, service.LoadBalancePolicy_LEAST_CONNECTION}[sched.Choose(sched.ClsInput, 2, "policy")]
-	change := []string{"remove a", "unhealthy a", "replace {b,c}", "remove a+b"}[sched.Choose(sched.ClsInput, 4, "change")]
+	change := []string{"remove a", "unhealthy a", "replace {b,c}", "remove a+b", "replace {c,a,b}"}[sched.Choose(sched.ClsInput, 5, "change")]
 	w := c06setup(policy, []string{"a", "b", "c"})
 	before := w.usable()
 	client, proxySide := vnet.Pipe()
@@ -253,6 +267,8 @@ func c06raceBody() {
 		case "replace {b,c}":
 			w.p.OnSvcAllHostReplace([]*host.Host{host.NewWithType(c06addrs["b"], host.TypeMain), host.NewWithType(c06addrs["c"], host.TypeBackup)})
 			delete(w.members, "a")
+		case "replace {c,a,b}": // the backup host is listed first
+			w.p.OnSvcAllHostReplace([]*host.Host{host.NewWithType(c06addrs["c"], host.TypeBackup), host.NewWithType(c06addrs["a"], host.TypeMain), host.NewWithType(c06addrs["b"], host.TypeMain)})
 		case "remove a+b":
 			w.p.OnSvcHostRemove([]*host.Host{host.New(c06addrs["a"]), host.New(c06addrs["b"])})
 			delete(w.members, "a")
